@@ -627,6 +627,61 @@ func TestC11Server(t *testing.T) {
 	})
 }
 
+// TestC11FirstBytes: what decides a connection's protocol is looked at before
+// any parser runs.  Exhaustively: every first byte, alone and followed by one
+// or two more bytes, then end of input.  The connection must be answered or
+// closed, the process must survive, a fresh connection must be served.
+func TestC11FirstBytes(t *testing.T) {
+	rec := evid.For("C11")
+	shard, shards := evid.Shard()
+	cfgs := []stack.Config{
+		{Shape: "l1only", Lock: "nolock", L1: "std", L2: "-"},
+		{Shape: "l1l2+batch", Lock: "lockNr", L1: "std", L2: "std", Conc: 3},
+	}
+	tails := [][]byte{nil, {0x00}, {0x01}, {0x03}, {0x03, 0x00}, {0x03, 0x01}, {0x03, 0x04}, {0x03, 0x05}, {0xff}, {0xff, 0xff}, {'\r'}, {'\n'}, {'\r', '\n'}, {' '}}
+	idx := 0
+	for ci, cfg := range cfgs {
+		st := stack.Get(cfg)
+		for b := 0; b < 256; b++ {
+			for ti, tail := range tails {
+				idx++
+				if idx%shards != shard {
+					continue
+				}
+				in := append([]byte{byte(b)}, tail...)
+				port := 0
+				if cfg.Shape == "l1l2+batch" && (b+ti)%2 == 1 {
+					port = 1
+				}
+				conn := st.Dial(port)
+				conn.SetDeadline(time.Now().Add(hangBound()))
+				conn.Write(in)
+				if uc, ok := conn.(*net.UnixConn); ok {
+					uc.CloseWrite()
+				}
+				_, err := io.ReadAll(conn)
+				conn.Close()
+				if ne, ok := err.(net.Error); err != nil && ok && ne.Timeout() {
+					noteHang()
+					p := rec.Violation("TestC11FirstBytes", map[string]interface{}{"config": cfg.String(), "input_hex": fmt.Sprintf("%x", in)})
+					t.Fatalf("C11 first bytes %s: input %x then end of input: the connection was neither answered-and-closed nor closed within the bound; replay %s", cfg, in, p)
+				}
+				cl := wire.NewClient(st.Dial(0), true)
+				cl.Timeout = hangBound()
+				o, e := cl.Do(wire.Cmd{Kind: wire.Noop})
+				cl.Close()
+				if e != nil || o.Class != wire.OK {
+					p := rec.Violation("TestC11FirstBytes", map[string]interface{}{"config": cfg.String(), "input_hex": fmt.Sprintf("%x", in)})
+					t.Fatalf("C11 first bytes %s: after input %x then end of input a fresh connection is not served: %v %s; replay %s", cfg, in, e, o, p)
+				}
+				rec.Case(true, fmt.Sprintf("first|%d|%x", ci, in), "first-bytes")
+			}
+		}
+	}
+	rec.MarkExhaustive("every first byte 0..255 x 14 continuations of 0..2 bytes, then end of input, on two stack configurations")
+	rec.Sample(true, map[string]interface{}{"first_bytes": 256, "continuations": len(tails)})
+}
+
 // TestC11Replay re-executes a saved grid case.
 func TestC11Replay(t *testing.T) {
 	path := evid.ReplayFile()
